@@ -278,7 +278,7 @@ func (pw *PoolWorld) shutdown() {
 
 func isPoolOp(name string) bool {
 	switch name {
-	case "Open", "Mode", "Close", "Connect", "Host", "Client", "Update", "Peer", "AddNode", "Withdraw", "Account", "Deposit", "SettleMode", "Ping":
+	case "Burst", "Open", "Mode", "Close", "Connect", "Host", "Client", "Update", "Peer", "AddNode", "Withdraw", "Account", "Deposit", "SettleMode", "Ping":
 		return true
 	}
 	return false
@@ -475,6 +475,43 @@ func (w *World) poolOp(op J) (J, error) {
 	}
 	name := str(op, "op")
 	switch name {
+	case "Burst":
+		// the requests are issued concurrently, each from its own goroutine
+		var reqs []J
+		if l, ok := op["reqs"].([]interface{}); ok {
+			for _, x := range l {
+				if m, ok := x.(map[string]interface{}); ok {
+					reqs = append(reqs, m)
+				}
+			}
+		}
+		results := make([]interface{}, len(reqs))
+		errs := make([]error, len(reqs))
+		var wg sync.WaitGroup
+		start := make(chan struct{})
+		for i := range reqs {
+			wg.Add(1)
+			go func(i int) {
+				defer wg.Done()
+				<-start
+				var r J
+				reqs[i]["inburst"] = true
+				if isPoolOp(str(reqs[i], "op")) {
+					r, errs[i] = w.poolOp(reqs[i])
+				} else {
+					r, errs[i] = w.storeOp(reqs[i])
+				}
+				results[i] = r
+			}(i)
+		}
+		close(start)
+		wg.Wait()
+		for _, err := range errs {
+			if err != nil {
+				return nil, err
+			}
+		}
+		return okRes(results), nil
 	case "Open":
 		pw.openConn(str(op, "conn"), str(op, "mode"), str(op, "addr"))
 		return okRes(nil), nil
@@ -587,9 +624,11 @@ func (w *World) poolOp(op J) (J, error) {
 				w.tr.flagBad("peer reply contains a node that is not a host")
 			}
 		}
-		pw.lastPeerURIs = nil
-		for _, n := range resp.Peers {
-			pw.lastPeerURIs = append(pw.lastPeerURIs, n.URI)
+		if !boolean(op, "inburst") {
+			pw.lastPeerURIs = nil
+			for _, n := range resp.Peers {
+				pw.lastPeerURIs = append(pw.lastPeerURIs, n.URI)
+			}
 		}
 		return okRes(w.nodeIDs(resp.Peers)), nil
 	case "AddNode":
@@ -607,6 +646,11 @@ func (w *World) poolOp(op J) (J, error) {
 		var out interface{}
 		if err := pw.call(c, &out, "pool_withdraw", pw.signedArgs(op, "pool_withdraw", true, nil, nil)); err != nil {
 			return pw.classify(err), nil
+		}
+		if boolean(op, "inburst") {
+			// amounts of racing withdrawals cannot be attributed to a call; the cumulative
+			// amount paid per wallet is in the projection
+			return okRes(-1), nil
 		}
 		pw.mu.Lock()
 		lp := pw.lastPay
